@@ -35,6 +35,18 @@ Theorem C12_live_stream : forall st p st1 o,
 Proof. exact produce_payload_spec. Qed.
 Print Assumptions C12_live_stream.
 
+(* Reading (and resetting) the producer's statistics between batches is invisible: for every history of public calls the
+   emitted batch ids, schema ids and types are those of the same history without the reads; ids allocated from the
+   resettable statistic are refuted. *)
+Theorem C12_stats_reads_invisible : forall h, snd (arun false ainit h) = snd (prun pinit (batches_of h)).
+Proof. exact resets_invisible. Qed.
+Print Assumptions C12_stats_reads_invisible.
+
+Example C12_ids_from_statistic_refuted :
+  snd (arun true ainit [Batch [(40, 1)]; ResetStats; Batch [(40, 3)]]) = [(0, [(0, 40)]); (1, [(0, 40)])] /\
+  snd (arun false ainit [Batch [(40, 1)]; ResetStats; Batch [(40, 3)]]) = [(0, [(0, 40)]); (1, [(1, 40)])].
+Proof. exact ids_from_statistic_refuted. Qed.
+
 (* non-vacuity: spans (type 40) change schema in the third batch; the attrs stream (41) keeps its id *)
 Example C12_example :
   snd (prun pinit [[(40, 1); (41, 2)]; [(40, 1); (41, 2)]; [(40, 3); (41, 2)]; [(30, 4)]]) =
